@@ -337,6 +337,15 @@ bool FileManager::readStream(std::istream &_istream, MeshT &_mesh,
 
         // Read property
         readProperty(_istream, _mesh);
+
+        // A value that could not be parsed leaves the stream in a failed
+        // (not end-of-file) state: nothing more can be read from it.
+        if(_istream.fail() && !_istream.eof()) {
+            if (verbosity_level_ >= 1) {
+                std::cerr << "OVM file loading error: could not parse property data!" << std::endl;
+            }
+            return false;
+        }
     }
 
     if(_computeBottomUpIncidences) {
